@@ -22,6 +22,13 @@ Whole runs, flat configurations (`Sched/Buffer.lean`):
 * `taken_at_first_due_step` : when a simulator begins a step, every buffered value the step takes
   (due at or before it) is due after all its earlier steps: the step is the destination's first step
   at or after the value's due time; and what stays in the buffer is not yet due
+Provenance, all configurations (`Sched/BufferSrc.lean`):
+* `buffered_values_are_outputs` : an action adds an entry to a simulator's input buffer only if it is the
+  `get_data` reply of a simulator with a pushed connection to it, and then the entry carries exactly the value the
+  reply holds for that connection's source attribute, keyed by that source and the connection's destination
+  port, stamped with output time + shift — nothing is invented, nothing is attributed to another source
+* `input_from_buffer_or_before` : the value a step receives under a key is the one it had before the buffer was
+  consulted (set_data / remembered persistent value), or the value of a due buffer entry with that key
 Cache path (`Sched/Prune.lean`):
 * `prune_keeps_pulled` : `prune_dataflow_cache` (as repaired, fix D8) never changes a lookup a consumer can
   still make: for a source whose output times have not gone back, every cached connection and every step time
@@ -36,6 +43,7 @@ import MosaikProofs.Lemmas.Data
 import MosaikProofs.Sched.Reach
 import MosaikProofs.Sched.Buffer
 import MosaikProofs.Sched.Prune
+import MosaikProofs.Sched.BufferSrc
 namespace Mosaik.C03
 open Mosaik
 
@@ -230,5 +238,41 @@ theorem prune_keeps_pulled (cfg : Cfg) (s : State) {q d : Sid} (hq : q < cfg.n) 
 example : (pruneList [(0, []), (2, [((0, 0), some 7)]), (5, [])] 3).map (·.1) = [2, 5] := by decide
 example : getOutputFor (pruneList [(0, []), (2, [((0, 0), some 7)]), (5, [])] 3) 4 = [((0, 0), some 7)] := by decide
 example : getOutputFor ([(0, []), (2, [((0, 0), some 7)]), (5, [])].filter (fun (e : Int × OutData) => decide (e.1 ≥ 3))) 4 = [] := by decide
+
+/-! ### provenance -/
+
+/-- nothing invented, nothing attributed to another source: where buffered values come from -/
+theorem buffered_values_are_outputs {cfg : Cfg} {s s' : State} {a : Action} (h : step cfg s a = some s') (q : Sid) :
+    ∀ e ∈ (s'.sims q).buffer, e ∈ (s.sims q).buffer ∨
+      ∃ p d c, a = .dataReply p d ∧ (s.sims p).cur = some c ∧ PushedBy cfg p q (outTimeOf c d).1 d e :=
+  step_buffer_sources h q
+
+theorem foldl_set_get (k : InKey) : ∀ (es : List BufEntry) (inp : InputData),
+    InputData.get? (es.foldl (fun acc e => InputData.set acc e.key e.val) inp) k = InputData.get? inp k ∨
+    ∃ e ∈ es, e.key = k ∧ InputData.get? (es.foldl (fun acc e => InputData.set acc e.key e.val) inp) k = some e.val
+  | [], inp => Or.inl rfl
+  | a :: es, inp => by
+    simp only [List.foldl_cons]
+    rcases foldl_set_get k es (InputData.set inp a.key a.val) with h | ⟨e, he, hk, hv⟩
+    · by_cases hak : a.key = k
+      · right
+        refine ⟨a, List.mem_cons_self, hak, ?_⟩
+        rw [h, hak, InputData.get?_set_same]
+      · left
+        rw [h, InputData.get?_set_other _ _ _ _ hak]
+    · exact Or.inr ⟨e, List.mem_cons_of_mem _ he, hk, hv⟩
+
+/-- the value a step receives under a key was there before the buffer was consulted, or is the value of a due buffer
+entry with that key -/
+theorem input_from_buffer_or_before (buf : List BufEntry) (step : Nat) (inp : InputData) (k : InKey) :
+    InputData.get? (bufferTake buf step inp).1 k = InputData.get? inp k ∨
+    ∃ e ∈ buf, e.time ≤ step ∧ e.key = k ∧ InputData.get? (bufferTake buf step inp).1 k = some e.val := by
+  unfold bufferTake
+  simp only
+  rcases foldl_set_get k (buf.filter (·.time ≤ step)) inp with h | ⟨e, he, hk, hv⟩
+  · exact Or.inl h
+  · right
+    simp only [List.mem_filter, decide_eq_true_eq] at he
+    exact ⟨e, he.1, he.2, hk, hv⟩
 
 end Mosaik.C03
